@@ -95,6 +95,32 @@ def step (e : ESt) (line : String) : ESt × String :=
 structure SpecSt where
   owner : Option Bytes := none
   ownerless : Bool := true
+  /-- the client's port: declared in the request (non-zero), else that of the first datagram
+      accepted from the owner's host -/
+  fixedPort : Option Nat := none
+  held : Bool := false
+  pending : List Nat := []      -- senders of the datagrams that arrived during `hold`
+  seq : Nat := 0
+
+def senderPort (k : Nat) : Nat := 4000 + k
+
+/-- a datagram from sender `k` arrives: fixes the client's port if it is the first one from the
+    owner's host (strangers never fix it) -/
+def SpecSt.arrive (s : SpecSt) (k : Nat) : SpecSt :=
+  match s.owner, s.fixedPort with
+  | some o, none => if ipEqual (senderIP k) o then { s with fixedPort := some (senderPort k) } else s
+  | _, _ => s
+
+/-- verdict on "a datagram of sender `k` was relayed" (after `arrive`) -/
+def SpecSt.relayVerdict (s : SpecSt) (k : Nat) : Option String :=
+  match s.owner with
+  | none => some "fail unparsable-op"
+  | some o =>
+    if !ipEqual (senderIP k) o then
+      some (if s.ownerless then "fail relay-stranger-ownerless" else "fail relay-stranger")
+    else if s.fixedPort ≠ some (senderPort k) then
+      some (if s.ownerless then "fail relay-stranger-ownerless" else "fail relay-other-port")
+    else none
 
 def specStep (s : SpecSt) (l : String) : SpecSt × String :=
   match l.splitOn "\t" with
@@ -103,11 +129,13 @@ def specStep (s : SpecSt) (l : String) : SpecSt × String :=
     if out.startsWith "panic" || out.startsWith "crash" then (s, "fail crashed")
     else if out.startsWith "timeout" then (s, "fail harness-timeout")
     else match tokens op with
-    | ["hold"] => (s, "ok")
+    | ["hold"] => ({ s with held := true, pending := [] }, "ok")
     | ["release"] =>
-      match tokens out, s.owner with
-      | ["relayed", lst], some o =>
+      match tokens out with
+      | ["relayed", lst] =>
         let entries := if lst = "-" then [] else lst.splitOn ","
+        -- the datagrams that arrived during the hold, in order, fix the port as they would have
+        let s1 := s.pending.foldl (fun acc k => acc.arrive k) s
         -- every relayed (destination, payload) must be one the OWNER sent, each once, in order
         let verdict := entries.foldl (fun (acc : Option String × Nat) en =>
           match acc.1 with
@@ -117,30 +145,40 @@ def specStep (s : SpecSt) (l : String) : SpecSt × String :=
             | [k, n] =>
               match parseSender k, n.toNat? with
               | some k, some n =>
-                if !ipEqual (senderIP k) o then
-                  (some (if s.ownerless then "fail relay-stranger-ownerless" else "fail relayed-foreign-bytes"), n)
-                else if n ≤ acc.2 then (some "fail relay-order", n)
-                else (none, n)
+                match s1.owner with
+                | some o =>
+                  if !ipEqual (senderIP k) o then
+                    (some (if s1.ownerless then "fail relay-stranger-ownerless" else "fail relayed-foreign-bytes"), n)
+                  else if n ≤ acc.2 then (some "fail relay-order", n)
+                  else if s1.fixedPort ≠ some (senderPort k) then
+                    (some (if s1.ownerless then "fail relay-stranger-ownerless" else "fail relay-other-port"), n)
+                  else (none, n)
+                | none => (some "fail unparsable-op", n)
               | _, _ => (some "fail unparsable-output", 0)
             | _ => (some "fail relayed-foreign-bytes", 0)) (none, 0)
-        (s, verdict.1.getD "ok")
-      | _, _ => (s, "fail unparsable-output")
+        ({ s1 with held := false, pending := [] }, verdict.1.getD "ok")
+      | _ => (s, "fail unparsable-output")
     | ["reset", c, d] =>
       match parseCtrl c, parseDecl d with
       | some ctrl, some (ip, port) =>
-        let o := owner (initSt ctrl ip port)
-        (match o with
-          | some o => { owner := some o, ownerless := false }
-          | none => { owner := some (senderIP 1), ownerless := true }, "ok")
+        let st0 := initSt ctrl ip port
+        let fp : Option Nat := match st0.expected with
+          | some e => if e.port ≠ 0 then some e.port else none
+          | none => none
+        (match owner st0 with
+          | some o => { owner := some o, ownerless := false, fixedPort := fp }
+          | none => { owner := some (senderIP 1), ownerless := true, fixedPort := some (senderPort 1) }, "ok")
       | _, _ => (s, "fail unparsable-op")
     | ["send", k, _] =>
-      match parseSender k, s.owner with
-      | some k, some o =>
-        if out = "relayed" ∧ !ipEqual (senderIP k) o then
-          (s, if s.ownerless then "fail relay-stranger-ownerless" else "fail relay-stranger")
-        else if out.startsWith "relayed-" then (s, "fail relayed-foreign-bytes")
-        else (s, "ok")
-      | _, _ => (s, "fail unparsable-op")
+      match parseSender k with
+      | some k =>
+        if s.held then ({ s with pending := s.pending ++ [k] }, "ok")
+        else
+          let s1 := s.arrive k
+          if out = "relayed" then (s1, (s1.relayVerdict k).getD "ok")
+          else if out.startsWith "relayed-" then (s1, "fail relayed-foreign-bytes")
+          else (s1, "ok")
+      | none => (s, "fail unparsable-op")
     | ["reply"] =>
       match tokens out, s.owner with
       | ["to", k], some o =>
@@ -148,6 +186,8 @@ def specStep (s : SpecSt) (l : String) : SpecSt × String :=
         | some k =>
           if !ipEqual (senderIP k) o then
             (s, if s.ownerless then "fail reply-stranger-ownerless" else "fail reply-stranger")
+          else if s.fixedPort ≠ some (senderPort k) then
+            (s, if s.ownerless then "fail reply-stranger-ownerless" else "fail reply-other-port")
           else (s, "ok")
         | none => (s, "fail reply-to-unknown-address")
       | ["none"], _ => (s, "ok")
